@@ -169,9 +169,21 @@ def _check_dangling_graph(case):
 _core_cases, _core_run = cases, run_case
 
 
+def _composite_cases(tier):
+    # every (order, pair of modifiers) as the only link and after the generic backbone link (so that vetoes see edges)
+    for name in _F.composite_names():
+        nmods = len(name.split(":")[2].split("+"))
+        for pre in ([], ["bb"]):
+            if tier == "quick" and pre and not any(m in name for m in ("nonedge", "rm", "ver", "repl")):
+                continue
+            for n in (2, 3) + ((4,) if (tier == "thorough" or nmods == 1) else ()):
+                yield {"variant": {"links": pre + [name]}, "n": n, "tier": tier}
+
+
 def cases(tier):          # noqa: F811
     yield from _core_cases(tier)
     yield from _dangling_cases(tier)
+    yield from _composite_cases(tier)
 
 
 def run_case(case):       # noqa: F811
